@@ -1,9 +1,26 @@
 //! C12 — the parser accepts exactly the documented grammar and builds the intended tree.
+//!
+//! Two halves:
+//!  (a) documents derived from the EBNF by our own AST model must be accepted and their tree must be
+//!      the derivation (oracle = the generator's own model);
+//!  (b) every single-token deletion, duplication, substitution and adjacent swap of such documents,
+//!      plus raw insertions (forbidden code points, quotes, comment openers, stray separators), are
+//!      decided by the reference tokenizer+recogniser O-gram; wac must agree on membership, on the
+//!      tree when both accept, and must locate its error inside the source when both reject.
 
 use crate::engine::*;
 use crate::gen::wacsyn::*;
+use crate::oracle::gram::{self, Dialect};
 use crate::wacutil::*;
+use proptest::prelude::*;
+use serde::{Deserialize, Serialize};
 use serde_json::json;
+use std::sync::atomic::{AtomicU64, Ordering};
+
+static MUTANTS: AtomicU64 = AtomicU64::new(0);
+static MUTANTS_REJECTED: AtomicU64 = AtomicU64::new(0);
+static MUTANTS_ACCEPTED: AtomicU64 = AtomicU64::new(0);
+static MUTANTS_TOLERATED: AtomicU64 = AtomicU64::new(0);
 
 fn check_valid(c: &SynCase) -> Outcome {
     let toks = c.toks();
@@ -21,15 +38,339 @@ fn check_valid(c: &SynCase) -> Outcome {
         Ok(tree) => {
             let got = normalize(&tree);
             let want = c.doc.json();
-            match first_diff(&want, &got) {
-                None => o.comparisons(1),
-                Some(path) => o.with_verdict(Verdict::Fail {
+            if let Some(path) = first_diff(&want, &got) {
+                return o.with_verdict(Verdict::Fail {
                     sig: format!("C12/tree-mismatch:{}", generic_path(&path)),
-                    msg: format!("tree differs from the derivation at {path}: expected {} got {}\n{text}", at_path(&want, &path).cloned().unwrap_or_default(), at_path(&got, &path).cloned().unwrap_or_default()),
-                }),
+                    msg: format!(
+                        "tree differs from the derivation at {path}: expected {} got {}\n{text}",
+                        at_path(&want, &path).cloned().unwrap_or_default(),
+                        at_path(&got, &path).cloned().unwrap_or_default()
+                    ),
+                });
+            }
+            // the reference recogniser must agree with the generator on its own documents
+            match gram::recognise(&text, &Dialect::DOCUMENTED) {
+                Ok(t) if t == want => o.comparisons(2),
+                Ok(_) => o.with_verdict(Verdict::GenInvalid("reference recogniser builds a different tree than the generator".into())),
+                Err(r) => o.with_verdict(Verdict::GenInvalid(format!("reference recogniser rejects a derived document: {} at {}", r.why, r.at))),
             }
         }
     }
+}
+
+/// Compare wac with the reference on one arbitrary text.  `None` = agreement.
+pub fn decide(text: &str) -> (Option<(String, String)>, bool, Option<&'static str>) {
+    let wac = parse_tree(text);
+    let reference = gram::recognise(text, &Dialect::DOCUMENTED);
+    let ref_accepts = reference.is_ok();
+    match (&wac, &reference) {
+        (Ok(w), Ok(r)) => {
+            let got = normalize(w);
+            match first_diff(r, &got) {
+                None => (None, ref_accepts, None),
+                Some(path) => (
+                    Some((
+                        format!("C12/tree-mismatch:{}", generic_path(&path)),
+                        format!("both accept, trees differ at {path}: reference {} wac {}", at_path(r, &path).cloned().unwrap_or_default(), at_path(&got, &path).cloned().unwrap_or_default()),
+                    )),
+                    ref_accepts,
+                    None,
+                ),
+            }
+        }
+        (Err(e), Err(_)) => {
+            // located inside the source, on character boundaries
+            let end = e.offset + e.len;
+            let ok = end <= text.len() && text.is_char_boundary(e.offset) && text.is_char_boundary(end) && (e.len > 0 || text.is_empty());
+            if ok {
+                (None, ref_accepts, None)
+            } else {
+                let sig = if e.offset + e.len > text.len() { "C12/error-span-outside-source" } else { "C12/error-span-not-on-char-boundary" };
+                (Some((sig.to_string(), format!("rejected with `{}` but span {}+{} is not inside the {}-byte source on char boundaries", e.message, e.offset, e.len, text.len()))), ref_accepts, None)
+            }
+        }
+        _ => {
+            let wac_accepts = wac.is_ok();
+            // attribute to a named deviation of the pinned parser from the EBNF
+            let all = Dialect::all();
+            let matches = |d: &Dialect| -> bool {
+                match (gram::recognise(text, d), &wac) {
+                    (Ok(r), Ok(w)) => first_diff(&r, &normalize(w)).is_none(),
+                    (Err(_), Err(_)) => true,
+                    _ => false,
+                }
+            };
+            if matches(&all) {
+                let mut needed = vec![];
+                for i in 0..Dialect::NAMES.len() {
+                    let mut d = all;
+                    d.set(i, false);
+                    if !matches(&d) {
+                        needed.push(Dialect::NAMES[i]);
+                    }
+                }
+                if needed.is_empty() {
+                    for i in 0..Dialect::NAMES.len() {
+                        let mut d = Dialect::DOCUMENTED;
+                        d.set(i, true);
+                        if matches(&d) {
+                            needed.push(Dialect::NAMES[i]);
+                            break;
+                        }
+                    }
+                }
+                if let Some(first) = needed.first() {
+                    return (
+                        Some((
+                            format!("C12/deviation:{first}"),
+                            format!(
+                                "wac {} but the documented grammar {}; explained by parser deviation(s) {:?}",
+                                if wac_accepts { "accepts" } else { "rejects" },
+                                if ref_accepts { "derives it" } else { "does not derive it" },
+                                needed
+                            ),
+                        )),
+                        ref_accepts,
+                        None,
+                    );
+                }
+            }
+            // The pinned lexer's treatment of stray `-`/`:` inside names is irregular (logos state
+            // merging: `h:a-:a` is three tokens, `h:a-a-:a` and `a:a-foo::a-a` one package name), so
+            // it is attributed by the exact input shape rather than modelled: wac's own lexer
+            // produced a name token that is not a well-formed token of the documented lexical
+            // grammar, or an identifier token whose text is a keyword.
+            if wac_accepts {
+                let (malformed, kw_ident) = lexer_anomalies(text);
+                if let Some(tok) = malformed {
+                    return (
+                        Some((
+                            "C12/deviation:lexer-swallows-dangling-separator".to_string(),
+                            format!("wac accepts a text in which its lexer produced the malformed name token {tok:?}"),
+                        )),
+                        ref_accepts,
+                        None,
+                    );
+                }
+                if let Some(tok) = kw_ident {
+                    return (
+                        Some((
+                            "C12/deviation:keyword-before-colon-lexes-as-identifier".to_string(),
+                            format!("wac accepts a text in which its lexer produced an identifier token for the keyword {tok:?}"),
+                        )),
+                        ref_accepts,
+                        None,
+                    );
+                }
+            }
+            let detail = match (&wac, &reference) {
+                (Ok(_), Err(r)) => format!("wac accepts; reference rejects: {} at byte {}", r.why, r.at),
+                (Err(e), Ok(_)) => format!("reference derives it; wac rejects: {} at {}+{}", e.message, e.offset, e.len),
+                _ => unreachable!(),
+            };
+            (Some((format!("C12/acceptance-mismatch:{}", if wac_accepts { "wac-accepts" } else { "wac-rejects" }), detail)), ref_accepts, None)
+        }
+    }
+}
+
+/// Name tokens produced by wac's lexer that the documented lexical grammar does not have:
+/// (first malformed name token, first identifier token whose text is a keyword).
+fn lexer_anomalies(text: &str) -> (Option<String>, Option<String>) {
+    use wac_parser::lexer::{Lexer, Token};
+    let mut malformed = None;
+    let mut kw = None;
+    let Ok(lexer) = Lexer::new(text) else { return (None, None) };
+    for (tok, span) in lexer {
+        let Ok(tok) = tok else { continue };
+        let want = match tok {
+            Token::Ident => gram::Kind::Ident,
+            Token::PackageName => gram::Kind::PkgName,
+            Token::PackagePath => gram::Kind::PkgPath,
+            _ => continue,
+        };
+        let t = &text[span.offset()..span.offset() + span.len()];
+        match gram::tokenize(t, &Dialect::DOCUMENTED) {
+            Ok(toks) if toks.len() == 1 && toks[0].kind == want => {}
+            Ok(toks) if toks.len() == 1 && toks[0].kind == gram::Kind::Kw && want == gram::Kind::Ident => {
+                if kw.is_none() {
+                    kw = Some(t.to_string());
+                }
+            }
+            _ => {
+                if malformed.is_none() {
+                    malformed = Some(t.to_string());
+                }
+            }
+        }
+    }
+    (malformed, kw)
+}
+
+const SUBST_POOL: &[(&str, TokClass)] = &[
+    ("...", TokClass::Sym),
+    (";", TokClass::Sym),
+    (",", TokClass::Sym),
+    (":", TokClass::Sym),
+    ("{", TokClass::Sym),
+    ("}", TokClass::Sym),
+    (".", TokClass::Sym),
+    ("_", TokClass::Sym),
+    ("->", TokClass::Sym),
+    ("as", TokClass::Keyword),
+    ("func", TokClass::Keyword),
+    ("new", TokClass::Keyword),
+    ("u8", TokClass::Keyword),
+    ("static", TokClass::Keyword),
+    ("zz", TokClass::Ident),
+    ("\"s\"", TokClass::Str),
+    ("p:q", TokClass::PkgName),
+    ("p:q/r@1.0.0", TokClass::PkgPath),
+];
+
+#[derive(Clone, Debug, Serialize, Deserialize)]
+pub struct MutCase {
+    pub base: SynCase,
+}
+
+fn mutants_of(toks: &[Tok]) -> Vec<(String, Vec<Tok>)> {
+    let mut out = vec![];
+    for i in 0..toks.len() {
+        let mut d = toks.to_vec();
+        d.remove(i);
+        out.push((format!("delete@{i}"), d));
+        let mut d = toks.to_vec();
+        d.insert(i, toks[i].clone());
+        out.push((format!("duplicate@{i}"), d));
+        if i + 1 < toks.len() {
+            let mut d = toks.to_vec();
+            d.swap(i, i + 1);
+            out.push((format!("swap@{i}"), d));
+        }
+        for (j, (text, class)) in SUBST_POOL.iter().enumerate() {
+            if toks[i].text == *text {
+                continue;
+            }
+            // keep it to a fixed sub-sample of the pool per position to bound the work
+            if (i + j) % 3 != 0 {
+                continue;
+            }
+            let mut d = toks.to_vec();
+            d[i] = Tok { text: text.to_string(), class: class.clone() };
+            out.push((format!("subst@{i}:{text}"), d));
+        }
+    }
+    out
+}
+
+fn check_mutants(c: &MutCase) -> Outcome {
+    let toks = c.base.toks();
+    let mut boundary = 0u64;
+    let mut n = 0u64;
+    let mut kinds = std::collections::BTreeSet::new();
+    for (name, m) in mutants_of(&toks) {
+        let text = render(&m, &c.base.layout);
+        n += 1;
+        let (disagreement, ref_accepts, _) = decide(&text);
+        MUTANTS.fetch_add(1, Ordering::Relaxed);
+        if ref_accepts {
+            MUTANTS_ACCEPTED.fetch_add(1, Ordering::Relaxed);
+        } else {
+            MUTANTS_REJECTED.fetch_add(1, Ordering::Relaxed);
+            boundary += 1;
+        }
+        kinds.insert(name.split('@').next().unwrap().to_string());
+        if let Some((sig, msg)) = disagreement {
+            return Outcome::fail(sig, format!("mutation {name}: {msg}\n--- text ---\n{text}")).rendered(json!({"mutation": name, "text": text}));
+        }
+    }
+    let mut o = Outcome::pass().comparisons(n).nontrivial(boundary > 0).rendered(json!({"text": render(&toks, &c.base.layout), "mutants": n, "rejected_by_reference": boundary}));
+    for k in kinds {
+        o = o.label(format!("mut-{k}"));
+    }
+    o
+}
+
+#[derive(Clone, Debug, Serialize, Deserialize)]
+pub struct RawCase {
+    pub base: SynCase,
+    pub insert: String,
+    pub pos: u16,
+}
+
+const FORBIDDEN: &[char] = &[
+    '\u{202a}', '\u{202b}', '\u{202c}', '\u{202d}', '\u{202e}', '\u{2066}', '\u{2067}', '\u{2068}', '\u{2069}', '\u{149}', '\u{673}', '\u{f77}', '\u{f79}', '\u{17a3}', '\u{17a4}', '\u{17b4}',
+    '\u{17b5}', '\u{0}', '\u{1}', '\u{7}', '\u{8}', '\u{b}', '\u{c}', '\u{1b}', '\u{7f}', '\u{85}', '\u{9f}',
+];
+
+const RAW_INSERTS: &[&str] = &[
+    "\"", "/*", "*/", "//", "%", "-", "@", "@1.0.0", "@1.0", ":", "_", "/", "...", ".", " ", "\n", ";", ",", "(", ")", "<", ">", "1", "A", "a", "\u{e9}", "\u{2603}", "->", "=", "[", "]", "-x", ":x", "/x", "%%",
+    "@01.0.0", "@1.0.0-rc.1", "@1.0.0+b", "@1..0",
+];
+
+fn raw_text(c: &RawCase) -> String {
+    let base = c.base.text();
+    let mut pos = (c.pos as usize * (base.len() + 1)) >> 16;
+    while !base.is_char_boundary(pos) {
+        pos -= 1;
+    }
+    format!("{}{}{}", &base[..pos], c.insert, &base[pos..])
+}
+
+fn check_raw(c: &RawCase) -> Outcome {
+    let text = raw_text(c);
+    let forbidden = c.insert.chars().any(gram::forbidden_code_point);
+    let (disagreement, ref_accepts, _) = decide(&text);
+    let mut o = Outcome::pass().nontrivial(!ref_accepts).comparisons(1).rendered(json!({"text": text}));
+    o = o.label(if forbidden { "raw-forbidden-code-point" } else { "raw-insert" });
+    o = o.label(if ref_accepts { "raw-accepted" } else { "raw-rejected" });
+    if forbidden && ref_accepts {
+        return o.with_verdict(Verdict::GenInvalid("reference accepted a forbidden code point".into()));
+    }
+    match disagreement {
+        None => o,
+        Some((sig, msg)) => o.with_verdict(Verdict::Fail { sig, msg: format!("insert {:?}: {msg}\n--- text ---\n{text}", c.insert) }),
+    }
+}
+
+#[derive(Clone, Debug, Serialize, Deserialize)]
+pub struct TextCase {
+    pub text: String,
+}
+
+fn check_text(c: &TextCase) -> Outcome {
+    let (disagreement, ref_accepts, _) = decide(&c.text);
+    let o = Outcome::pass().nontrivial(!ref_accepts).comparisons(1).label(if ref_accepts { "handwritten-accepted" } else { "handwritten-rejected" });
+    match disagreement {
+        None => o,
+        Some((sig, msg)) => o.with_verdict(Verdict::Fail { sig, msg: format!("{msg}\n--- text ---\n{}", c.text) }),
+    }
+}
+
+/// Near-miss forms listed in the statement / DESIGN.md, checked on every run.
+fn handwritten() -> Vec<TextCase> {
+    let p = "package a:b;\n";
+    let bodies = [
+        "let x = y", "let x = y;;", "let x y;", "let = y;", "let let = y;", "let %let = y;", "let x = new c:d { ... };", "let x = new c:d { ..., };", "let x = new c:d { ...\n y };",
+        "let x = new c:d { ...y, ... };", "let x = new c:d { a, ...\n};", "let x = new c:d {};", "let x = new c:d { a b };", "let x = new c:d { a,, b };", "let x = new c:d { \"s\" };",
+        "let x = new c:d { \"s\": y };", "export x as;", "export x... as y;", "export x as y...;", "export x.y[\"z\"].w;", "export x[y];", "export x.\"y\";", "import x: func();",
+        "import x: func() -> ;", "import x: func() -> (a: u8);", "import x: func() -> (a: u8, b: u8,);", "import x: func(a: u8,) -> u8;", "import x: func(a: u8,,) -> u8;",
+        "import x: func(a:u8);", "import x: func(a :u8);", "import x as \"y\": c:d/e;", "import x as: c:d/e;", "import x: c:d;", "import x: c:d/e@1.0;", "import x: c:d/e@1.0.0;",
+        "import x: c:d/e@1.0.0-rc.1+b.2;", "import x: c:d/e@01.0.0;", "record r {}", "record r { a: u8 }", "record r { a: u8, }", "record r { a: u8,, }", "variant v {}", "variant v { a(u8), b }",
+        "enum e {}", "enum e { a, }", "flags f {}", "flags f { a b }", "type t = tuple<>;", "type t = tuple<u8,>;", "type t = list<>;", "type t = result;", "type t = result<u8>;",
+        "type t = result<_, u8>;", "type t = result<u8, u8>;", "type t = result<_>;", "type t = result<_, _>;", "type t = result<u8, _>;", "type t = borrow<r>;", "type t = borrow<u8>;",
+        "type t = option<option<u8>>;", "type t = func;", "type t = func() -> u8", "interface i { use a.{}; }", "interface i { use a.{b as c,}; }", "interface i { use a:b/c.{d}; }",
+        "interface i { use a:b/c@1.0.0.{d}; }", "interface i { resource r; }", "interface i { resource r {} }", "interface i { resource r { constructor(); m: static func(); n: func(); } }",
+        "interface i { resource r { constructor() } }", "interface i { f: func() }", "interface i { f: g; }", "world w { include x with {}; }", "world w { include x with { a as b, }; }",
+        "world w { include a:b/c; import d: func(); export e: interface { }; import f; export g:h/i; }", "world w { import a:b; }", "resource r;", "let foo- = y;", "let foo-bar = y;",
+        "let %foo- = y;", "import x: a:b:/c;", "let x = new a:b- {};", "let FOO = y;", "let Foo = y;", "let fOO = y;", "let x = \"unterminated;", "let x = y; /* unterminated",
+        "let x = y; /* nested /* ok */ */", "let x = y; // trailing", "let x = y; /**/", "let x\u{202e} = y;", "let x = y; // \u{202e}", "let x = y; /* \u{7} */", "let x = new c:d { \"\u{1b}\": y };",
+        "let x = y;\u{c}", "let x = y;\r\n\t", "let x = (y);", "let x = ((y)).z;", "let x = ();", "let x = (y;", "let x = new c:d@1.0.0 { };", "let x = new c:d@1.0 { };", "let x = new c:d/e { };",
+    ];
+    let mut out: Vec<TextCase> = bodies.iter().map(|b| TextCase { text: format!("{p}{b}\n") }).collect();
+    for t in ["", " ", "package", "package a;", "package a:b", "package a:b;", "package a:b targets c:d/e;", "package a:b targets c:d;", "package a:b@1.0.0;", "package a:b@1.0;", "package a:b:c;", "package %a:%b;", "let x = y;", "package a:b; package c:d;", "// only a comment", "package a:b; //\u{2603}", "package a:b; let x = y //\u{2603}"] {
+        out.push(TextCase { text: t.to_string() });
+    }
+    out
 }
 
 pub fn run(tier: Tier, seed: u64, replay: Option<&std::path::Path>) -> i32 {
@@ -38,13 +379,47 @@ pub fn run(tier: Tier, seed: u64, replay: Option<&std::path::Path>) -> i32 {
         tier,
         seed,
         "exploration",
-        "documents derived from LANGUAGE.md's EBNF by our own AST model (size <= 6 statements, depth <= 3) rendered with random layout; the expected tree is the generator's derivation. Non-trivial = uses >= 3 statement kinds. Distinct by JSON hash.",
+        "documents derived from LANGUAGE.md's EBNF by our own AST model (<= 6 statements, depth <= 3) rendered with random layout (whitespace, line/nested block/doc comments, %-escapes, optional trailing commas): expected tree = the derivation. For a sub-sample of them ALL single-token deletions, duplications, adjacent swaps and a fixed third of an 18-token substitution pool per position, plus random raw insertions (27 forbidden code points, quotes, comment openers, stray separators, malformed versions) and a fixed list of hand-written near-miss forms: membership decided by the reference tokenizer+recogniser written from the EBNF; both accept => equal trees; both reject => error span inside the source on char boundaries. Non-trivial (valid docs) = >= 3 statement kinds; non-trivial (mutation cases) = at least one mutant the reference rejects. Distinct by JSON hash.",
     );
+    run.assume("tolerances T1 (`...` in any argument position: the resolver rejects it), T2 (empty / lone-`...` argument lists), upper-case words as in the lexer's pinned `ident` test");
+    run.assume("version validity delegated to the `semver` crate");
     if let Some(p) = replay {
-        run.replay_case::<SynCase, _>(p, check_valid);
+        let text = std::fs::read_to_string(p).unwrap_or_default();
+        if text.contains("\"insert\"") {
+            run.replay_case::<RawCase, _>(p, check_raw);
+        } else if text.contains("\"base\"") {
+            run.replay_case::<MutCase, _>(p, check_mutants);
+        } else if text.contains("\"doc\"") {
+            run.replay_case::<SynCase, _>(p, check_valid);
+        } else {
+            run.replay_case::<TextCase, _>(p, check_text);
+        }
         return run.finish();
     }
-    let cases = tier.pick(40_000, 600_000);
+    run.enumerate(&handwritten(), check_text);
+    let cases = tier.pick(40_000, 400_000);
     run.explore(1, 16, cases / 16, || syncase_strategy(6), check_valid);
+    let mcases = tier.pick(1_600, 24_000);
+    run.explore(2, 16, mcases / 16, || syncase_strategy(3).prop_map(|base| MutCase { base }), check_mutants);
+    let rcases = tier.pick(40_000, 400_000);
+    let raw = || {
+        (
+            syncase_strategy(3),
+            prop_oneof![
+                proptest::sample::select(FORBIDDEN).prop_map(|c| c.to_string()),
+                proptest::sample::select(RAW_INSERTS).prop_map(|s| s.to_string()),
+            ],
+            any::<u16>(),
+        )
+            .prop_map(|(base, insert, pos)| RawCase { base, insert, pos })
+    };
+    run.explore(3, 16, rcases / 16, raw, check_raw);
+    run.set_extra("mutants_total", json!(MUTANTS.load(Ordering::Relaxed)));
+    run.set_extra("mutants_rejected_by_reference", json!(MUTANTS_REJECTED.load(Ordering::Relaxed)));
+    run.set_extra("mutants_accepted_by_reference", json!(MUTANTS_ACCEPTED.load(Ordering::Relaxed)));
+    let _ = &MUTANTS_TOLERATED;
+    run.floor("mut-delete", 50);
+    run.floor("mut-swap", 50);
+    run.floor("raw-forbidden-code-point", 100);
     run.finish()
 }
